@@ -106,4 +106,7 @@ def est_scripts(tier, rng):
 def families(tier, seed):
     rng = random.Random(seed * 1000 + 6)
     return [Family("index-guess", guess_scripts(tier, rng), monitor=guess_monitor),
-            Family("rdbx-estimate", est_scripts(tier, rng))]
+            Family("rdbx-estimate", est_scripts(tier, rng)),
+            Family("api-wraps", [(f"wrap-{k}", __import__("lib.apigen", fromlist=["x"]).replay_history(rng, tier, n_ssrc=1, steps=(120 if tier == "quick" else 900))[0])
+                                 for k in range(8 if tier == "quick" else 80)],
+                   monitor=lambda s, c: __import__("lib.apigen", fromlist=["x"]).replay_monitor(s, c, False))]
